@@ -173,7 +173,8 @@ def apiUpdateJob (s : Sys) (cached : JobObj) (new : JobObj) : Sys × Bool :=
         else
           ({ s with rv := s.rv + 1, job := some nj, jobEvs := s.jobEvs ++ [.upsert nj] }, f ≠ "applied-err")
 
-/-- Job `UpdateStatus` with the cached resourceVersion -/
+/-- Job `UpdateStatus` with the resourceVersion of `cached` (the cached Job, or the cached Job on top of
+the object the preceding `Update` returned: `statusBase`) -/
 def apiUpdateJobStatus (s : Sys) (cached : JobObj) (new : JobObj) : Sys × Bool :=
   let (f, s) := nextFault s
   if isFailFault f then (log s ⟨"update", "jobs", cached.name, faultOut f, true, false⟩, false)
@@ -511,13 +512,34 @@ def sync (s : Sys) (jo : JobObj) : Sys × Job × Bool × Bool × Bool :=
       | (s4, none) => (s4, rj2, jo.finalizer, false, null2)
       | (s4, some (rj3, fin)) => (s4, rj3, fin, true, null3)
 
-/-- `Reconciler.SyncOne`; `true` = returned nil -/
+/-- The resourceVersion of the object a successful Job `Update` returned (`updatedRj` of
+`ExecutionControl.updateJob`): the one of the stored object right after the call -- the new version,
+or the unchanged one when the update was a no-op.  When the `Update` removed the object (last
+finalizer dropped from a Job being deleted) the returned value is immaterial: the status write that
+follows is answered NotFound whatever resourceVersion it carries. -/
+def updatedRv (s : Sys) (cached : JobObj) : Nat :=
+  match s.job with
+  | some cur => cur.rv
+  | none => cached.rv
+
+/-- The object whose resourceVersion the status write of `ExecutionControl.UpdateJobAndStatus` is
+submitted with: the cached Job when there was nothing to `Update` (`updatedRj == nil`), otherwise the
+cached Job carrying the resourceVersion of the object `Update` returned. -/
+def statusBase (s2 : Sys) (jo : JobObj) (specDiffers : Bool) : JobObj :=
+  if specDiffers then { jo with rv := updatedRv s2 jo } else jo
+
+theorem statusBase_false (s2 : Sys) (jo : JobObj) : statusBase s2 jo false = jo := rfl
+theorem statusBase_true (s2 : Sys) (jo : JobObj) : statusBase s2 jo true = { jo with rv := updatedRv s2 jo } := rfl
+
+/-- `Reconciler.SyncOne`; `true` = returned nil.  The two writes are
+`ExecutionControl.UpdateJobAndStatus`: `Update` (if metadata differ), then `UpdateStatus` (if the
+status differs) ON TOP OF the object `Update` returned. -/
 def syncOne (s : Sys) : Sys × Bool :=
   match s.jobCache with
   | none => (s, true)
   | some jo =>
     let (s1, newJob, newFin, syncOk, nullTime) := sync s jo
-    -- UpdateJob: only if spec / annotations / finalizers differ
+    -- updateJob: only if spec / annotations / finalizers differ
     let specDiffers := newJob.admissionError ≠ jo.job.admissionError || newFin ≠ jo.finalizer
     let (s2, ok1) : Sys × Bool :=
       if specDiffers then apiUpdateJob s1 jo { jo with job := newJob, finalizer := newFin } else (s1, true)
@@ -525,7 +547,8 @@ def syncOne (s : Sys) : Sys × Bool :=
     else
       let statusDiffers := decide (newJob.status ≠ jo.job.status) || nullTime
       let (s3, ok2) : Sys × Bool :=
-        if statusDiffers then apiUpdateJobStatus s2 jo { jo with job := newJob } else (s2, true)
+        if statusDiffers then apiUpdateJobStatus s2 (statusBase s2 jo specDiffers) { jo with job := newJob }
+        else (s2, true)
       if !ok2 then (s3, false) else (s3, syncOk)
 
 /-- one step of `reconciler.Controller.work` -/
